@@ -1,5 +1,6 @@
 (** C02 - GC never reclaims or corrupts reachable data: property theorems only. *)
 From ChibiV Require Import C02.Model C02.Spec C02.Proofs C02.Progress Gen.C02_Layout C02.LayoutCheck.
+From ChibiV Require C02.VmTop Gen.C02_VmTop C02.VmTopCheck.
 Local Open Scope Z_scope.
 
 (** sexp_mark (gc.c:256-302) started on a heap with all marks clear marks exactly the objects
@@ -90,3 +91,17 @@ Theorem trailing_skip_sound : forall h ws p len n1 n2,
     (is_imm v = true \/ ismarked h v \/ nth_error ws (p + n2) = Some v).
 Proof. exact trailing_skip. Qed.
 Print Assumptions trailing_skip_sound.
+
+(** generated obligation (vm.c opcode switch of the tree under check, Gen/C02_VmTop.v): in every opcode, wherever
+    a call that may allocate (= may collect) is reached, the VM's local stack top is at or below the top published
+    in the context, so the marker's scan of the stack (slots below the published top) covers every live operand *)
+Theorem alloc_ops_publish_top : forallb VmTop.seg_ok C02_VmTop.vm_segments = true.
+Proof. exact VmTopCheck.vm_alloc_ops_publish_top. Qed.
+Print Assumptions alloc_ops_publish_top.
+
+(** the checker behind it is sound for branch-free opcode bodies: on the concrete pair (local top, published top), started
+    in any state, no call that may allocate runs with the local top above the published one *)
+Theorem vm_top_checker_sound : forall l f s c ok,
+  Forall VmTop.flat l -> VmTop.gamma s c -> fst (VmTop.run_list (S f) l ok (Some s)) = true -> VmTop.crun l c <> None.
+Proof. exact VmTop.vm_top_checker_sound_flat. Qed.
+Print Assumptions vm_top_checker_sound.
